@@ -210,6 +210,7 @@ fn cmd_run(args: &[String]) {
     let (mut n_hist, mut n_query, mut n_obs, mut n_diff, mut n_fresh_confirmed, mut n_incr_only, mut n_generr) =
         (0u64, 0u64, 0u64, 0u64, 0u64, 0u64, 0u64);
     let mut ok_compiled = 0u64;
+    let mut compiling_ids: Vec<u64> = vec![];
     let mut covered: std::collections::BTreeSet<(u64, String)> = Default::default();
     let t_all = Instant::now();
     let (mut ms_ref, mut ms_a, mut ms_gen) = (0u128, 0u128, 0u128);
@@ -281,6 +282,7 @@ fn cmd_run(args: &[String]) {
                             let o = observe_app(&db_b, &w);
                             if o.iter().any(|(k, _)| k == "sierra_canon") {
                                 ok_compiled += 1;
+                                compiling_ids.push(d.id);
                             }
                             reference.insert(d.id, o);
                             ms_ref += t.elapsed().as_millis();
@@ -345,7 +347,7 @@ fn cmd_run(args: &[String]) {
         "dependents_compiling":ok_compiled,"diffs_seen":n_diff,
         "diffs_confirmed":n_fresh_confirmed,"incremental_only":n_incr_only,"gen_errors":n_generr,
         "ms_total":t_all.elapsed().as_millis() as u64,"ms_ref":ms_ref as u64,"ms_a":ms_a as u64,"ms_gen":ms_gen as u64},
-        "covered":cov}));
+        "covered":cov,"compiling":compiling_ids}));
     out.finish();
 }
 
